@@ -158,6 +158,16 @@ func (f *Fixture) WaitTable(name string, d time.Duration) error {
 	return fmt.Errorf("table %q not ready: %w", name, err)
 }
 
+// WaitTablePatient is WaitTable for oracles: a table that does not answer within d is given another two minutes (a loaded machine
+// can starve a fresh shard's election and the per-attempt deadline for a long time); the caller must treat a remaining error as
+// "could not judge" (vt.Inconclusive), never as a violation - no property bounds the time a table needs to become ready.
+func (f *Fixture) WaitTablePatient(name string, d time.Duration) error {
+	if err := f.WaitTable(name, d); err == nil {
+		return nil
+	}
+	return f.WaitTable(name, 2*time.Minute)
+}
+
 // CreateTable creates a table and waits until it is usable.
 func (f *Fixture) CreateTable(name string) (table.Table, error) {
 	t, err := f.E.CreateTable(name)
